@@ -18,7 +18,7 @@ Check (C09_bounded_completeness_partial : forall rules max_depth f0,
   flat f0 -> horn rules ->
   (forall k v v', In (k, v) (f0 ++ flat_map br_sets rules) -> In (k, v') (f0 ++ flat_map br_sets rules) -> v = v') ->
   (forall r, In r rules -> conj (br_cond r) = true) ->
-  (forall r, In r rules -> gnonnum (br_cond r) = true) ->
+  (forall r, In r rules -> glit_ok (f0 ++ flat_map br_sets rules) (br_cond r)) ->
   (forall r, In r rules -> (gdepth (br_cond r) <= 62)%nat) ->
   forall goal h, positive_op (b_op goal) = true -> Z.of_nat h <= max_depth ->
     goal_holds (level h rules f0) goal = true -> fst (dfs rules max_depth goal f0) = true).
